@@ -84,6 +84,7 @@ type Exec struct {
 	Events   []Event
 	Trace    bool
 	chans    map[uintptr]*chanState
+	atomics  map[uintptr]*SyncVC
 	ctxKids  map[uintptr][]uintptr // Done channel of a context -> Done channels of the contexts derived from it
 	keep     []any
 	aborting bool
